@@ -135,6 +135,20 @@ func (m *RWMutex) TryLock() bool {
 	return true
 }
 
+// TryRLock tries the read lock. (Detached it is the real one, which fails while a writer is queued; the model has no
+// writer queue, so attached it fails only while a writer holds the lock.)
+func (m *RWMutex) TryRLock() bool {
+	if !sched.Active() {
+		return m.real.TryRLock()
+	}
+	sched.Point(sched.KYield, nil, "RWMutex.TryRLock")
+	if m.writer {
+		return false
+	}
+	m.readers++
+	return true
+}
+
 // RLocker returns a Locker for the read side.
 func (m *RWMutex) RLocker() sync.Locker { return (*rlocker)(m) }
 
